@@ -955,5 +955,373 @@ theorem scrollWalk_congr (t0 t1 : Tree) (pens : Array (Option Pen)) (win : Id) (
             | ub e => rfl
             | ok v2 => exact ih p v2 _ _ _ (hanc.parent_up haw.1 hp)
 
+/-! ### assembling the step -/
+
+theorem compose_some (t : Tree) (content : Id → Int → Int → Cell) (L C : Int) (o : Id × Int × Int)
+    (h : ownerAt t L C = some o) : compose t content L C = some (content o.1 o.2.1 o.2.2) := by
+  obtain ⟨w, l, c⟩ := o
+  unfold compose
+  rw [h]
+
+/-- Where something below `win` owns a cell, `win` is exposed at it. -/
+theorem below_exposed (t : Tree) (hok : TreeOk t) (win : Id) (L C : Int) (o : Id × Int × Int)
+    (h : ownerAt t L C = some o) (hwo : Anc t win o.1) : ∃ l c, ExposedAt t (t.wins.size + 1) win l c L C :=
+  exposedAt_anc t hok hwo _ _ _ _ _ (owner_exposedAt t hok L C o.1 o.2.1 o.2.2 h)
+
+theorem exposedAt_self (t : Tree) (k : Nat) (win : Id) (w : Win) (hw : t.wins[win]? = some w) (l c L C : Int)
+    (hex : ExposedAt t k win l c L C) : (⟨0, 0, w.rect.lines, w.rect.cols⟩ : Rect).Mem l c := by
+  cases k with
+  | zero => simp [ExposedAt] at hex
+  | succ n =>
+    simp only [ExposedAt] at hex
+    obtain ⟨w', hw', _, b1, b2, b3, b4, _⟩ := hex
+    rw [hw] at hw'; cases hw'
+    simp only [Rect.Mem, Rect.bottom, Rect.right]
+    omega
+
+theorem wstruct_congr {t t' : Tree} (h : t'.wins = t.wins) (hs : WStruct t) : WStruct t' :=
+  have hcore : ∀ x : Id, (t'.wins[x]?).map core = (t.wins[x]?).map core := by intro x; rw [h]
+  { ok := treeOk_congr_core hcore hs.ok, ord := ordered_congr h hs.ord, pos := rootsPositive_congr_core hcore hs.pos,
+    pc := parentListed_congr h hs.pc }
+
+theorem mixedG_dummy (D : Int → Int → Prop) (st : St) : MixedG (fun _ _ => none) (fun _ _ => none) D st := by
+  intro L C
+  by_cases hd : D L C
+  · exact Or.inr (Or.inl ⟨hd, fun v hv => by cases hv⟩)
+  · exact Or.inr (Or.inr ⟨hd, fun v hv => by cases hv⟩)
+
+/-- What the application's move leaves of the state the scroll produced. -/
+theorem moved_facts (content : Id → Int → Int → Cell) (st st_s : St) (win : Id) (ww w2 : Win) (d r : Int) (t1 : Tree)
+    (hg : GoodQ content st) (hgw : WinTree.get st.tree win = .ok ww) (hwins : st_s.tree.wins = st.tree.wins)
+    (hg2 : WinTree.get st_s.tree win = .ok w2) (hmc : moveChildren d r st_s.tree w2.children = .ok t1) :
+    w2 = ww ∧ Moved st.tree t1 ww.children d r ∧ t1.root = st_s.tree.root ∧ WStruct t1 ∧ t1.wins[win]? = some ww ∧
+      (∀ ch ∈ ww.children, @LT.lt Nat _ win ch) ∧ t1.wins[0]? = st.tree.wins[0]? := by
+  have hw := get_ok hgw
+  have hw2 := get_ok hg2
+  have e : w2 = ww := by
+    have := hw2.1
+    rw [hwins, hw.1] at this
+    exact (Option.some.inj this).symm
+  subst e
+  have hs0 : WStruct st.tree := ⟨hg.tinv.ok, hg.tinv.ord, hg.tinv.pos, hg.pc⟩
+  have hlt : ∀ ch ∈ w2.children, @LT.lt Nat _ win ch := hg.tinv.ord win w2 hw.1
+  obtain ⟨hm, hr, hs1⟩ := moveChildren_spec d r w2.children st_s.tree t1 hmc (hg.tinv.ok.nodup win w2 hw.1)
+    (fun c hc e => by have := hlt c hc; rw [e] at this; exact Nat.not_lt_zero _ this) (wstruct_congr hwins hs0)
+  have hm' : Moved st.tree t1 w2.children d r :=
+    ⟨by rw [hm.size, hwins], fun x hx => by rw [hm.other x hx, hwins], fun ch hch cw hcw => hm.moved ch hch cw (by rw [hwins]; exact hcw)⟩
+  have hnw : win ∉ w2.children := fun hc => by have := hlt win hc; omega
+  have hn0 : (0 : Id) ∉ w2.children := fun hc => by have := hlt 0 hc; omega
+  exact ⟨rfl, hm', hr, hs1, by rw [hm'.other win hnw]; exact hw.1, hlt, hm'.other 0 hn0⟩
+
+/-- **Closing the step**: once the scroll has left "damaged, or right for the new composition inside the region `V`, or
+    right for the old one outside it", and `V` contains every cell the subtree of the scrolled window owns after the
+    move, the state with the children moved satisfies the invariant for the shifted content. -/
+theorem scrollch_finish (content content' : Id → Int → Int → Cell) (st st_s : St) (win : Id) (ww : Win) (d r : Int) (t1 : Tree)
+    (V : Int → Int → Prop) (hg : GoodQ content st) (hloop : SLoopOk st.tree st st_s)
+    (hmv : Moved st.tree t1 ww.children d r) (hroot : t1.root = st_s.tree.root) (hs1 : WStruct t1)
+    (hww1 : t1.wins[win]? = some ww) (hlt : ∀ ch ∈ ww.children, @LT.lt Nat _ win ch)
+    (h0 : t1.wins[0]? = st.tree.wins[0]?)
+    (hM : MixedG (compose st.tree content) (compose t1 content') V st_s)
+    (hV2 : ∀ L C o, ownerAt t1 L C = some o → Anc t1 win o.1 → V L C)
+    (hc : ∀ w' l c, w' ≠ win → content' w' l c = content w' l c) :
+    GoodQ content' { st_s with tree := t1 } := by
+  have hord : ∀ ch ∈ ww.children, ch ≠ win := fun ch hch e => by
+    have := hlt ch hch; rw [e] at this; exact Nat.lt_irrefl _ this
+  refine { tinv := ⟨hs1.ok, hs1.ord, hs1.pos, by rw [hroot]; exact hloop.nonempty, by rw [hroot]; exact hloop.dinv, ?_⟩
+           flags := (by unfold Flags; rw [hroot]; exact hloop.flags)
+           queue := (by unfold QueueOk; rw [hroot, hloop.changes]; exact hg.queue)
+           queueLater := (by
+             rw [hroot, hloop.changes]
+             exact fun hq => hloop.later (hg.queueLater hq))
+           term := ?_
+           pc := hs1.pc }
+  · intro L C w l c ho
+    show Covered t1.root.damage L C ∨ st_s.screen L C = content' w l c
+    rcases hM L C with hcv | ⟨_, hr⟩ | ⟨hnv, hr⟩
+    · exact Or.inl (by rw [hroot]; exact hcv)
+    · exact Or.inr (hr _ (compose_some t1 content' L C _ ho))
+    · right
+      have hno : ¬ Anc t1 win w := fun ha => hnv (hV2 L C _ ho ha)
+      have hback := ownerLoc_moved_back st.tree t1 win ww d r hmv hs1.ok.wf hww1 hord (t1.wins.size + 1) 0 L C (w, l, c)
+        (by
+          rintro ⟨ha, hne⟩
+          have := anc_le t1 hs1.ord hs1.pc ha
+          have h0' : @Eq Nat win 0 := by omega
+          exact hne h0'.symm)
+        ho hno
+      rw [hmv.size] at hback
+      have := hr _ (compose_some st.tree content L C _ hback)
+      rw [this, hc w l c (fun e => hno (by rw [e]; exact Anc.refl win))]
+  · obtain ⟨w0, hw0, e1, e2⟩ := hg.term
+    exact ⟨w0, by show t1.wins[0]? = some w0; rw [h0]; exact hw0, by rw [hloop.tl]; exact e1, by rw [hloop.tc]; exact e2⟩
+
+theorem sLoopOk_refl (content : Id → Int → Int → Cell) (st : St) (hg : GoodQ content st) : SLoopOk st.tree st st :=
+  { wins := rfl, changes := rfl, tl := rfl, tc := rfl, pens := rfl, nonempty := hg.tinv.nonempty, dinv := hg.tinv.dinv,
+    flags := hg.flags, later := fun hx => hx }
+
+theorem sLoopOk_reroot {t0 : Tree} {st0 st : St} (hl : SLoopOk t0 st0 st) :
+    SLoopOk t0 st0 { st with tree := { st.tree with root := { st.tree.root with needsRestore := true, needsLater := true } } } :=
+  { wins := hl.wins, changes := hl.changes, tl := hl.tl, tc := hl.tc, pens := hl.pens, nonempty := hl.nonempty, dinv := hl.dinv,
+    flags := fun hd => ⟨(hl.flags hd).1, rfl⟩, later := fun _ => rfl }
+
+theorem mixedG_init (content content' : Id → Int → Int → Cell) (st : St) (t1 : Tree)
+    (hinv : InvC content st.tree st.screen) :
+    MixedG (compose st.tree content) (compose t1 content') (fun _ _ => False) st := by
+  intro L C
+  cases ho : ownerAt st.tree L C with
+  | none =>
+    refine Or.inr (Or.inr ⟨fun h => h, fun v hv => ?_⟩)
+    unfold compose at hv
+    rw [ho] at hv
+    cases hv
+  | some o =>
+    rcases hinv L C o.1 o.2.1 o.2.2 ho with hcv | hr
+    · exact Or.inl hcv
+    · refine Or.inr (Or.inr ⟨fun h => h, fun v hv => ?_⟩)
+      rw [compose_some _ _ _ _ _ ho] at hv
+      simp only [Option.some.injEq] at hv
+      rw [← hv]
+      exact hr
+
+/-- **The subtree of the scrolled window after the move** shows at a cell what it showed, before, at the cell `(d, r)`
+    away: a child's cell where a (moved) child owns it, else the window's own. -/
+theorem subOwn_moved (t0 t1 : Tree) (win : Id) (ww : Win) (d r : Int) (hmv : Moved t0 t1 ww.children d r) (hs0 : WStruct t0)
+    (hww : t0.wins[win]? = some ww) (l c : Int) :
+    (∀ o, ww.children.findSome? (fun ch => own t0 ch (l + d) (c + r)) = some o → subOwn t1 win ww.children l c = o) ∧
+    (ww.children.findSome? (fun ch => own t0 ch (l + d) (c + r)) = none → subOwn t1 win ww.children l c = (win, l, c)) := by
+  unfold subOwn
+  have hall : ∀ ch ∈ ww.children, own t1 ch l c = own t0 ch (l + d) (c + r) := by
+    intro ch hch
+    unfold own
+    rw [hmv.size]
+    obtain ⟨cw, hcw, hcp, _⟩ := hs0.ok.wf.child win ww hww ch hch
+    have hwc : @LT.lt Nat _ win ch := hs0.ord win ww hww ch hch
+    refine ownerLoc_moved_child t0 t1 _ ch cw d r hcw (hmv.moved ch hch cw hcw) (fun s hs x y => ?_) l c
+    refine ownerLoc_moved_off t0 t1 ww.children d r hmv hs0.ok.wf _ s (fun k hk hkc => ?_) x y
+    -- a window below a grandchild is not a child
+    obtain ⟨sw, hsw, hsp, _⟩ := hs0.ok.wf.child ch cw hcw s hs
+    obtain ⟨kw, hkw, hkp, _⟩ := hs0.ok.wf.child win ww hww k hkc
+    have hcs : @LT.lt Nat _ ch s := hs0.ord ch cw hcw s hs
+    by_cases hsk : s = k
+    · subst hsk
+      rw [hsw] at hkw; cases hkw
+      rw [hsp] at hkp
+      have : @Eq Nat ch win := by cases hkp; rfl
+      omega
+    · have := anc_le t0 hs0.ord hs0.pc (anc_parent_down hk hsk hkw hkp)
+      omega
+  rw [findSome?_congr_mem _ _ _ hall]
+  exact ⟨fun o h => by rw [h], fun h => by rw [h]⟩
+
+theorem subOwn_child_ne (t0 : Tree) (win : Id) (ww : Win) (hs0 : WStruct t0) (hww : t0.wins[win]? = some ww) (x y : Int)
+    (o : Id × Int × Int) (h : ww.children.findSome? (fun ch => own t0 ch x y) = some o) : o.1 ≠ win := by
+  obtain ⟨ch, hch, hown⟩ := List.exists_of_findSome?_eq_some h
+  have h1 := anc_le t0 hs0.ord hs0.pc (ownerLoc_anc t0 hs0.ok.wf _ ch x y o.1 o.2.1 o.2.2 hown)
+  have h2 : @LT.lt Nat _ win ch := hs0.ord win ww hww ch hch
+  intro e
+  rw [e] at h1
+  omega
+
+/-- **`scrollch_step`**: `tickit_window_scroll_with_children` (`_scroll` with the children *not* masked: the terminal
+    scrolls every cell of the window's subtree) followed by the application moving every child by the same offsets,
+    under every scroll oracle and whatever the call returned, keeps the state invariant when the window's own content
+    moves with the scroll (the children's content, in their own coordinates, stays). -/
+theorem scrollch_step (oracle : Oracle) (content content' : Id → Int → Int → Cell) (st st' : St) (win : Id) (ww : Win)
+    (d r : Int) (ret : Bool) (hg : GoodQ content st) (hgw : WinTree.get st.tree win = .ok ww)
+    (h : scrollWithChildrenMoved oracle st win d r = .ok (st', ret))
+    (hc : ∀ w l c, content' w l c =
+      if w = win ∧ (⟨0, 0, ww.rect.lines, ww.rect.cols⟩ : Rect).memb l c = true then content w (l + d) (c + r)
+      else content w l c) :
+    GoodQ content' st' := by
+  have hI := hg.tinv
+  have hok := hI.ok
+  have hw := get_ok hgw
+  have hs0 : WStruct st.tree := ⟨hI.ok, hI.ord, hI.pos, hg.pc⟩
+  have hcne : ∀ w' l c, w' ≠ win → content' w' l c = content w' l c := by
+    intro w' l c hne
+    rw [hc w' l c, if_neg (fun hx => hne hx.1)]
+  have hltw : ∀ ch ∈ ww.children, @LT.lt Nat _ win ch := hI.ord win ww hw.1
+  unfold scrollWithChildrenMoved scrollWithChildren at h
+  simp only [bind, Bind.bind, hgw] at h
+  cases hs : scroll oracle st win ⟨0, 0, ww.rect.lines, ww.rect.cols⟩ d r none false with
+  | ub e => rw [hs] at h; cases h
+  | ok res =>
+    obtain ⟨st_s, ret_s⟩ := res
+    rw [hs] at h
+    simp only at h
+    cases hg2 : WinTree.get st_s.tree win with
+    | ub e => rw [hg2] at h; cases h
+    | ok w2 =>
+      rw [hg2] at h
+      simp only at h
+      cases hmc : moveChildren d r st_s.tree w2.children with
+      | ub e => rw [hmc] at h; cases h
+      | ok t1 =>
+        rw [hmc] at h
+        simp only [pure, Pure.pure, Res.ok.injEq, Prod.mk.injEq] at h
+        obtain ⟨hst', _⟩ := h
+        subst hst'
+        -- a tree that differs only in the children of `win`
+        have hsame_le : ∀ t : Tree, (∀ x, x ∉ ww.children → t.wins[x]? = st.tree.wins[x]?) →
+            ∀ x, @LE.le Nat _ x win → t.wins[x]? = st.tree.wins[x]? := by
+          intro t ht x hx
+          exact ht x (fun hcx => by have := hltw x hcx; omega)
+        -- the outcomes in which nothing is scrolled: nothing of the subtree shows, before or after the move
+        have trivial_case : st_s = st → (∀ t : Tree, WStruct t → t.wins[win]? = some ww →
+            (∀ x, x ∉ ww.children → t.wins[x]? = st.tree.wins[x]?) → t.wins.size = st.tree.wins.size →
+            ∀ L C o, ownerAt t L C = some o → Anc t win o.1 → False) → GoodQ content' { st_s with tree := t1 } := by
+          intro hss hnone
+          subst hss
+          obtain ⟨_, hmv, hroot, hs1, hww1, hlt, h00⟩ := moved_facts content st_s st_s win ww w2 d r t1 hg hgw rfl hg2 hmc
+          exact scrollch_finish content content' st_s st_s win ww d r t1 (fun _ _ => False) hg (sLoopOk_refl content st_s hg)
+            hmv hroot hs1 hww1 hlt h00 (mixedG_init content content' st_s t1 hI.inv)
+            (fun L C o ho ha => hnone t1 hs1 hww1 hmv.other hmv.size L C o ho ha) hcne
+        unfold scroll at hs
+        simp only [bind, Bind.bind, pure, Pure.pure, hgw, Bool.false_eq_true, if_false] at hs
+        cases h0 : Rect.intersect ⟨0, 0, ww.rect.lines, ww.rect.cols⟩ ⟨0, 0, ww.rect.lines, ww.rect.cols⟩ with
+        | none =>
+          rw [h0] at hs
+          simp only [Res.ok.injEq, Prod.mk.injEq] at hs
+          refine trivial_case hs.1.symm (fun t hst htw _ _ L C o ho ha => ?_)
+          obtain ⟨l, c, hex⟩ := below_exposed t hst.ok win L C o ho ha
+          have hm := exposedAt_self t _ win ww htw l c L C hex
+          exact Props.C06.intersect_none _ _ h0 l c ⟨hm, hm⟩
+        | some rect0 =>
+          rw [h0] at hs
+          simp only at hs
+          have hm0 := (Props.C06.intersect_some _ _ _ h0).2
+          cases h1 : clipToAncestors st.tree st.fuel win 0 0 rect0 with
+          | ub e => rw [h1] at hs; cases hs
+          | ok cr =>
+            rw [h1] at hs
+            simp only at hs
+            cases cr with
+            | none =>
+              simp only [Res.ok.injEq, Prod.mk.injEq] at hs
+              refine trivial_case hs.1.symm (fun t hst htw hto hsz L C o ho ha => ?_)
+              obtain ⟨l, c, hex⟩ := below_exposed t hst.ok win L C o ho ha
+              have hm := exposedAt_self t _ win ww htw l c L C hex
+              have h1t : clipToAncestors t (t.wins.size + 1) win 0 0 rect0 = .ok none := by
+                rw [hsz, clipToAncestors_congr st.tree t win hs0 (hsame_le t hto) _ win 0 0 rect0 (Anc.refl win)]
+                exact h1
+              obtain ⟨r', hr', _⟩ := clip_keep t hst.ok _ win 0 0 rect0 none _ l c L C h1t ((hm0 l c).2 ⟨hm, hm⟩)
+                (by simpa using hex)
+              cases hr'
+            | some crect =>
+              simp only at hs
+              cases h2 : rsAdd [] crect with
+              | ub e => rw [h2] at hs; cases hs
+              | ok vis0 =>
+                rw [h2] at hs
+                simp only at hs
+                unfold scrollRectSet at hs
+                simp only [bind, Bind.bind, pure, Pure.pure] at hs
+                cases h4 : scrollWalk st.tree st.pens st.fuel win vis0 0 0 ((none : Option Pen).getD {}) with
+                | ub e => rw [h4] at hs; cases hs
+                | ok wres =>
+                  rw [h4] at hs
+                  simp only at hs
+                  cases wres with
+                  | none =>
+                    simp only [Res.ok.injEq, Prod.mk.injEq] at hs
+                    refine trivial_case hs.1.symm (fun t hst htw hto hsz L C o ho ha => ?_)
+                    obtain ⟨l, c, hex⟩ := below_exposed t hst.ok win L C o ho ha
+                    have h4t : scrollWalk t st.pens (t.wins.size + 1) win vis0 0 0 ((none : Option Pen).getD {}) = .ok none := by
+                      rw [hsz, scrollWalk_congr st.tree t st.pens win ww hs0 hw.1 hto _ win vis0 0 0 _ (Anc.refl win)]
+                      exact h4
+                    exact scrollWalk_none t st.pens hst.ok _ win _ _ _ _ h4t _ _ _ _ _ hex
+                  | some quint =>
+                    obtain ⟨top, vis', T', L', pen'⟩ := quint
+                    simp only at hs
+                    cases hgt : WinTree.get st.tree top with
+                    | ub e => rw [hgt] at hs; cases hs
+                    | ok tw =>
+                      rw [hgt] at hs
+                      have htw := get_ok hgt
+                      simp only at hs
+                      cases hir : tw.isRoot with
+                      | false => simp [hir] at hs
+                      | true =>
+                        simp only [hir, Bool.not_true, Bool.false_eq_true, if_false] at hs
+                        cases hlp : scrollLoop oracle win T' L' d r pen' vis' (st, true, false) with
+                        | ub e => rw [hlp] at hs; cases hs
+                        | ok acc' =>
+                          rw [hlp] at hs
+                          simp only [Res.ok.injEq, Prod.mk.injEq] at hs
+                          obtain ⟨hst_s, _⟩ := hs
+                          have htop0 : top = 0 := hok.onlyRoot top tw htw.1 hir
+                          subst htop0
+                          -- the visible region, in the tree as it is
+                          obtain ⟨vinv, v1, _⟩ := visibleG_spec st.tree st.pens hok hI.ord hg.pc win ww hw.1 _ rect0 crect h0 h1
+                            vis0 h2 _ 0 vis' T' L' pen' h4 tw htw.1 hir
+                          obtain ⟨rootw, hrootw, hrl, hrc⟩ := hg.term
+                          have hexp : ∀ ρ ∈ vis', ∀ L C, ρ.Mem L C →
+                              ExposedAt st.tree (st.tree.wins.size + 1) win (L - T') (C - L') L C ∧ ¬ False ∧
+                              0 ≤ L ∧ L < st.tlines ∧ 0 ≤ C ∧ C < st.tcols := by
+                            intro ρ hρ L C hm
+                            obtain ⟨o1, _, o3⟩ := v1 L C ⟨ρ, hρ, hm⟩
+                            have hro : RootOk st.tree := by
+                              rcases root_vis_cases st.tree hI.ok with hv | ⟨wh, hwh, hvh⟩
+                              · exact rootOk_of_visible hI.ok hv
+                              · rw [ownerAt_none_of_hidden st.tree wh hwh hvh] at o1; cases o1
+                            obtain ⟨wr, hwr, b1, b2, b3, b4⟩ := ownerAt_some_memb st.tree hro L C _ o1
+                            rw [hrootw] at hwr; cases hwr
+                            exact ⟨o3, fun hx => hx, b1, by omega, b3, by omega⟩
+                          -- the loop keeps the store: the move acts on the windows as they were
+                          obtain ⟨a1d, _⟩ := scrollLoopG_step oracle (fun _ _ => none) (fun _ _ => none) st.tree st win T' L' d r pen'
+                            hI.pos vis' (fun _ _ => False) (st, true, false) acc' hlp (sLoopOk_refl content st hg) vinv.1 vinv.2.1
+                            hexp (fun _ _ _ _ _ _ v hv => by cases hv) (mixedG_dummy _ _)
+                          have hwins_s : st_s.tree.wins = st.tree.wins := by
+                            rw [← hst_s]
+                            split <;> exact a1d.wins
+                          obtain ⟨_, hmv, hroot, hs1, hww1, hlt, h00⟩ :=
+                            moved_facts content st st_s win ww w2 d r t1 hg hgw hwins_s hg2 hmc
+                          -- the same region, in the tree with the children moved
+                          have h1t : clipToAncestors t1 (t1.wins.size + 1) win 0 0 rect0 = .ok (some crect) := by
+                            rw [hmv.size, clipToAncestors_congr st.tree t1 win hs0 (hsame_le t1 hmv.other) _ win 0 0 rect0 (Anc.refl win)]
+                            exact h1
+                          have h4t : scrollWalk t1 st.pens (t1.wins.size + 1) win vis0 0 0 ((none : Option Pen).getD {}) =
+                              .ok (some (0, vis', T', L', pen')) := by
+                            rw [hmv.size, scrollWalk_congr st.tree t1 st.pens win ww hs0 hw.1 hmv.other _ win vis0 0 0 _ (Anc.refl win)]
+                            exact h4
+                          obtain ⟨_, v1', v2'⟩ := visibleG_spec t1 st.pens hs1.ok hs1.ord hs1.pc win ww hww1 _ rect0 crect h0 h1t
+                            vis0 h2 _ 0 vis' T' L' pen' h4t tw (by rw [h00]; exact htw.1) hir
+                          -- inside the region the new composition shows what the old one showed `(d, r)` away
+                          have hsh : ∀ ρ ∈ vis', ∀ L C, ρ.Mem L C → ρ.Mem (L + d) (C + r) →
+                              ∀ v, compose t1 content' L C = some v → compose st.tree content (L + d) (C + r) = some v := by
+                            intro ρ hρ L C hm hm2 v hv
+                            obtain ⟨p1, p2, _⟩ := v1' L C ⟨ρ, hρ, hm⟩
+                            obtain ⟨q1, _, _⟩ := v1 (L + d) (C + r) ⟨ρ, hρ, hm2⟩
+                            have e1 : L + d - T' = L - T' + d := by omega
+                            have e2 : C + r - L' = C - L' + r := by omega
+                            rw [e1, e2] at q1
+                            rw [compose_some _ _ _ _ _ p1] at hv
+                            rw [compose_some _ _ _ _ _ q1, ← hv]
+                            obtain ⟨m1, m2⟩ := subOwn_moved st.tree t1 win ww d r hmv hs0 hw.1 (L - T') (C - L')
+                            cases hfs : ww.children.findSome? (fun ch => own st.tree ch (L - T' + d) (C - L' + r)) with
+                            | some o =>
+                              have e0 : subOwn st.tree win ww.children (L - T' + d) (C - L' + r) = o := by
+                                unfold subOwn; rw [hfs]
+                              rw [m1 o hfs, e0, hcne o.1 _ _ (subOwn_child_ne st.tree win ww hs0 hw.1 _ _ o hfs)]
+                            | none =>
+                              have e0 : subOwn st.tree win ww.children (L - T' + d) (C - L' + r) = (win, L - T' + d, C - L' + r) := by
+                                unfold subOwn; rw [hfs]
+                              rw [m2 hfs, e0, hc win _ _, if_pos ⟨rfl, (memb_true_iff _ _ _).2 p2⟩]
+                          obtain ⟨a1, a2⟩ := scrollLoopG_step oracle (compose st.tree content) (compose t1 content') st.tree st win
+                            T' L' d r pen' hI.pos vis' (fun _ _ => False) (st, true, false) acc' hlp (sLoopOk_refl content st hg)
+                            vinv.1 vinv.2.1 hexp hsh (mixedG_init content content' st t1 hI.inv)
+                          -- `needs_restore`, `needs_later_processing` raised or not
+                          have hfin : SLoopOk st.tree st st_s ∧
+                              MixedG (compose st.tree content) (compose t1 content') (fun L C => Covered vis' L C ∨ False) st_s := by
+                            rw [← hst_s]
+                            split
+                            · exact ⟨sLoopOk_reroot a1, a2⟩
+                            · exact ⟨a1, a2⟩
+                          exact scrollch_finish content content' st st_s win ww d r t1 (fun L C => Covered vis' L C ∨ False) hg hfin.1
+                            hmv hroot hs1 hww1 hlt h00 hfin.2
+                            (fun L C o ho ha => by
+                              obtain ⟨hex, hcov⟩ := v2' L C o ho ha
+                              exact Or.inl (hcov (exposedAt_self t1 _ win ww hww1 _ _ L C hex))) hcne
+
 end WinFlush
 end Tickit
